@@ -97,3 +97,48 @@ contract(
         "result['weights_file'] is self.flow.weights_file",
     ],
 )
+
+# ---- checkpoints written by train_proposal record a finished training --------
+from .shapes import LP_ARR as _LPA
+shape("TrainProposalAbs", {}, methods={
+    "train": Contract("<abstract>", "TrainProposalAbs.train",
+                      params={"x": "Any"}, trusted=True,
+                      trusted_reason="flow training: no sampler state"),
+})
+shape("NestedSamplerTrain", {
+    "iteration": "Int", "last_updated": "Int", "cooldown": "Int",
+    "completed_training": "Bool", "live_points": _LPA, "memory": "Int",
+    "nested_samples": "List(Real)", "proposal": "Obj(TrainProposalAbs)",
+    "training_time": "Any",
+    "history": "Dict(training_iterations:List(Int))",
+    "block_iteration": "Int", "block_acceptance": "Real",
+    "checkpoint_on_training": "Bool", "ghost_ckpt_completed": "Bool",
+}, cls="NestedSampler", methods={
+    "check_flow_model_reset": Contract(
+        "<abstract>", "NestedSampler.check_flow_model_reset", trusted=True,
+        trusted_reason="resets flow weights / permutations on schedule; no "
+        "sampler state"),
+    "checkpoint": Contract(
+        "<abstract>", "NestedSampler.checkpoint",
+        params={"periodic": "Bool"}, trusted=True,
+        trusted_reason="pickles the sampler as it is NOW (C11): the ghost "
+        "attribute records what the pickled `completed_training` is",
+        modifies=["self.ghost_ckpt_completed"],
+        ensures=["self.ghost_ckpt_completed == self.completed_training"]),
+})
+contract(
+    NS, "NestedSampler.train_proposal", props=["C12"],
+    self_shape="NestedSamplerTrain", params={"force": "Bool"},
+    requires=["self.memory == 0", "self.ghost_ckpt_completed"],
+    modifies=["self.completed_training", "self.training_time",
+              "self.history", "self.block_iteration",
+              "self.block_acceptance", "self.ghost_ckpt_completed"],
+    ensures=[
+        # a checkpoint written at the end of training pickles a sampler whose
+        # training is marked complete -- what the writer itself continues
+        # with (a restored sampler must not treat training as interrupted)
+        "self.ghost_ckpt_completed",
+        "implies(force or old(self.iteration) - old(self.last_updated) >= "
+        "old(self.cooldown), self.completed_training)",
+    ],
+)
